@@ -29,7 +29,7 @@ def modules(A, B):
     L.append(" export eA, eB")
     for nm, fs in (("eA", fa), ("eB", fb)):
         body = progs.render_func(0, fs[0], protos)
-        L.append(body.replace("main: func", nm + ": func").replace("Lmain_", "L%s_" % nm))
+        L.append(body.replace("main: func", nm + ": func").replace("Lmain_", "L%s_" % nm).replace("lr_main", "lr_" + nm))
     L.append(" endmodule")
     return "\n".join(L) + "\n"
 
